@@ -20,6 +20,7 @@ CONFIGS = {
     'ru-seqs-nosp': ({'pack': '', 'lang': 'ru', 'seqs': True, 'nosp': True}, False),
     'extr': ({'pack': '*', 'lang': 'en', 'extr': 'footnote,caption,section'}, False),
     'repl': ({'pack': '*', 'lang': 'en', 'repl': REPL}, False),
+    'extr-noarg': ({'pack': '*', 'lang': 'en', 'extr': 'LaTeX,hfill,ss,footnotemark,xxx,item,par'}, False),
     'defs': ({'pack': '*', 'lang': 'en', 'defs': DEFS}, False),
     'defs-ml': ({'pack': '*', 'lang': 'en-GB', 'defs': DEFS, 'repl': REPL}, True),
     'unkn': ({'pack': '*', 'lang': 'en', 'unkn': True}, False),
@@ -37,7 +38,8 @@ CORE = CORE24 + ['\n', '$$', '\\(', '\\)', '#', '{verbatim}', '{proof}', '{other
                  '\\gls@defglossaryentry{ka}{text={Ga b}}', '\\gls{ka}', '\\Gls', '\\cref{ka}',
                  '\\usepackage[poorman]{cleveref}\\YYCleverefInput{ymc.sed}',
                  '\\newcommand\\za', '\\def\\zb', '\\za', '\\zb', '\\text', '\\usepackage', '\\LTinput{nofile}', '~', '--', '\\,', '.', '*',
-                 '\\documentclass', '\\newtheorem', '=', ',', '\\phantom', '\\hspace', '\\\\[', '|']
+                 '\\documentclass', '\\newtheorem', '=', ',', '\\phantom', '\\hspace', '\\\\[', '|',
+                 '\\newacronym{a}{b}{\ufb03}', '\\newglossaryentry{a}{description={\u00df}}', '\u00df', '\u0130']
 DEFINERS = {'\\newcommand': '\\za', '\\def': '\\zb'}
 _full = None
 
@@ -184,6 +186,12 @@ def cases(tier, which):
             for cfg in MAIN_CFGS + ['extr', 'repl']:
                 yield ['tail', fi, t, cfg]
                 yield ['tail2', fi, t, cfg]
+    # (f) constructs inside a macro body / default value, used at the end of the text
+    for bi in range(len(bodies())):
+        for ui in range(len(BODY_USES)):
+            for form in (0, 1):
+                for cfg in MAIN_CFGS:
+                    yield ['body', bi, ui, form, cfg]
     # (e) full option grid on a few rich documents (thorough)
     if not quick:
         for gi in range(len(GRID_DOCS)):
@@ -197,6 +205,35 @@ def cases(tier, which):
                 for p in range(len(d)):
                     for q in range(p + 1, len(d)):
                         yield ['fault2', di, p, q, MAIN_CFGS[di % 3]]
+
+
+# (f) every construct inside the body (or the default value) of a user macro that is used at the very end of the text:
+# generated tokens carry the position of the call; whatever they are turned into must stay inside the source
+RAW_BODIES = ['\n\n', '#1\n\n', ' #1 ', '\\verb|abcdefghij|', '\\verb|ab|#1', '#1#1#1#1', '\\\\', '~~~~', '---', '\\begin{verbatim}abcdefgh\\end{verbatim}',
+              '\\ss\\ss', '\\newacronym{a}{b}{\u00df}', '\\newacronym{a}{b}{\ufb03 x}', '\\Gls{ka}', '$$a$$', '\\item', '\\\\[2ex]', '%\n', '\\footnote{#1\n\n#1}',
+              '\\section{#1}', "\\'e", '"a', '\\LTinput{nofile}', '\\foreignlanguage{german}{\n    x y}']
+BODY_USES = ['A \\mq{x}', 'A\n\\mq~', 'A \\mq x', '\\mq{}', 'A\\footnote{\\mq{y}}', '\\mq{\\mq{z}}']
+
+
+def body_sources():
+    out = list(RAW_BODIES)
+    for f in cat.forests(cat.ALL, 1):
+        try:
+            r = cat.render(f, ' ', 'de' if cat.META[f[0][0]].get('lang') else 'en', frame='bare')
+        except cat.Invalid:
+            continue
+        out.append(r.src[r.body_start:])
+    return out
+
+
+_bodies = None
+
+
+def bodies():
+    global _bodies
+    if _bodies is None:
+        _bodies = body_sources()
+    return _bodies
 
 
 KV_ALPHA = ['a', '=', ',', '{', '}', ' ', 'b', ']', '[']
@@ -280,6 +317,14 @@ def source_of(case):
         return 'A\\footnote{B ' + TAIL_FAULTS[case[1]] + TAIL[:case[2]], case[3]
     if kind == 'kv':
         return 'A ' + KV_FRAMES[case[1]] % case[2] + ' B\n', case[3]
+    if kind == 'body':
+        b = bodies()[case[1]]
+        pre = '\\gls@defglossaryentry{ka}{text={Gxaq},plural={Gxbq},description={Gxcq Gxdq}}\n' if 'ls{ka}' in b else ''
+        if case[3] == 0:
+            d = '\\newcommand{\\mq}[1]{%s}' % b
+        else:
+            d = '\\newcommand{\\mq}[2][%s]{#1#2}' % b.replace('#1', '')
+        return pre + d + '\n' + BODY_USES[case[2]], case[4]
     if kind == 'grid':
         return GRID_DOCS[case[1]], 'grid:' + ','.join(map(str, case[2]))
     raise ValueError(kind)
@@ -328,3 +373,4 @@ def init_worker():
     catcheck.init_worker()
     full_vocab()
     rich_docs()
+    bodies()
